@@ -110,6 +110,16 @@ def m_format(I, st, c, args, body, t):
     s = render(a)
     if s is not None:
         return st, StrV("lit", text=s)
+    # a number rendered on its own (`format!("{:.1}", t)`): still a number as far as column alignment is concerned
+    if isinstance(a, OpaqueV) and a.term and a.term[0] == "fmtargs" and a.term[1] is not None:
+        site, vals = a.term[1], a.term[2]
+        ph = [p for p in site["pieces"] if "lit" not in p]
+        lits = "".join(p["lit"] for p in site["pieces"] if "lit" in p)
+        if len(ph) == 1 and lits.strip() == "":
+            ai = ph[0].get("arg")
+            pv = _arg_value(vals[ai]) if ai is not None and ai < len(vals) else None
+            if (isinstance(pv, IntV) and pv.ty != "char") or isinstance(pv, FloatV):
+                return st, StrV("numtext", deps=deps_of(pv))
     return M.m_str_opaque(I, st, c, args, body, t)
 
 
